@@ -116,7 +116,65 @@ class NotNot(ast.NodeTransformer):
         return node
 
 
-TRANSFORMS = dict(flipcmp=FlipCmp, ifswap=IfSwap, commute=Commute, kwrev=KwRev, retvar=RetVar, rename=Rename, notnot=NotNot)
+class AugExpand(ast.NodeTransformer):
+    """x += e  ->  x = x + e   (names only)"""
+
+    def visit_AugAssign(self, node):
+        self.generic_visit(node)
+        if isinstance(node.target, ast.Name) and isinstance(node.op, (ast.Add, ast.Sub)):
+            return ast.Assign(targets=[ast.Name(id=node.target.id, ctx=ast.Store())], value=ast.BinOp(left=ast.Name(id=node.target.id, ctx=ast.Load()), op=node.op, right=node.value), lineno=node.lineno)
+        return node
+
+
+class WithSplit(ast.NodeTransformer):
+    """with a, b: body  ->  with a: with b: body"""
+
+    def visit_With(self, node):
+        self.generic_visit(node)
+        if len(node.items) > 1:
+            inner = ast.With(items=node.items[1:], body=node.body, lineno=node.lineno)
+            return ast.With(items=node.items[:1], body=[inner], lineno=node.lineno)
+        return node
+
+
+class Kwargify(ast.NodeTransformer):
+    """f(a, b) -> f(p1=a, p2=b) for calls of module-level package functions whose name is unique in the package."""
+    SIGS = None
+
+    @classmethod
+    def load(cls):
+        if cls.SIGS is None:
+            from gsa.model import Model
+            m = Model('/repo')
+            by_name = {}
+            for q, f in m.functions.items():
+                if f.cls is None and f.module.kind == 'py':
+                    by_name.setdefault(f.name, []).append(f)
+            cls.SIGS = {}
+            for name, fs in by_name.items():
+                if len(fs) == 1:
+                    a = fs[0].node.args
+                    if not a.posonlyargs and not a.vararg:
+                        cls.SIGS[name] = [x.arg for x in a.args]
+        return cls.SIGS
+
+    def visit_Call(self, node):
+        self.generic_visit(node)
+        sigs = self.load()
+        name = node.func.id if isinstance(node.func, ast.Name) else node.func.attr if isinstance(node.func, ast.Attribute) and isinstance(node.func.value, ast.Name) and node.func.value.id in ('common', 'gjson') else None
+        if name in sigs and node.args and not any(isinstance(a, ast.Starred) for a in node.args) and len(node.args) <= len(sigs[name]) \
+                and name not in ('zip_strict', 'get_progress', 'iter_progress', 'progress_config'):
+            params = sigs[name]
+            keep = 1 if len(node.args) > 1 else 0      # keep the first positional (reads naturally), keywordise the rest
+            newkw = [ast.keyword(arg=params[i], value=a) for i, a in enumerate(node.args) if i >= keep]
+            if any(k.arg in {x.arg for x in node.keywords} for k in newkw):
+                return node
+            node.args = node.args[:keep]
+            node.keywords = newkw + node.keywords
+        return node
+
+
+TRANSFORMS = dict(augexpand=AugExpand, withsplit=WithSplit, kwargify=Kwargify, flipcmp=FlipCmp, ifswap=IfSwap, commute=Commute, kwrev=KwRev, retvar=RetVar, rename=Rename, notnot=NotNot)
 
 
 def py_files(root):
